@@ -49,8 +49,10 @@ def parseTok (t : String) : Tok :=
 
 /-- `none` = violation at this token -/
 def stepTok (stack : List Frame) : Tok → Option (List Frame)
+  -- `step` may report IDLE only when a stable-configuration notice was the last thing that happened: every
+  -- completed macrostep - also one an internal event from outside started - is followed by its notice
+  | .ret v => if v == "IDLE" then (match stack with | [.stable] => some stack | _ => none) else some stack
   -- tokens that carry no nesting information
-  | .ret _ => some stack
   | .log _ => some stack
   | .note _ => some stack
   | .raw s =>
